@@ -36,4 +36,17 @@ def WellFormed : Instr → Prop
 instance : DecidablePred WellFormed := fun i => by
   unfold WellFormed; split <;> infer_instance
 
+/-- the micro-operation does not use the F register as the destination cell of a generic byte helper
+    (`ld8 f _`, `ldRM f`, `inc8 f`, `dec8 f`, `rot _ f`, `res _ f`, `set _ f`, `pop f` would store an
+    arbitrary byte into F; dispatch.go uses none of them: POP AF goes through `popF`) -/
+def FSafe : MicroOp → Bool
+  | .ld8 dst _ | .ldRM dst | .inc8 dst | .dec8 dst | .rot _ dst | .res _ dst | .set _ dst | .pop dst =>
+    dst != .f
+  | _ => true
+
+/-- every table entry is `FSafe` -/
+def TablesFSafe (t : Tables) : Bool :=
+  t.normal.all (·.all FSafe) && t.prefixed.all (·.all FSafe) &&
+  t.veryShort.all FSafe && t.short.all FSafe && t.long.all FSafe
+
 end Tetro.C01
